@@ -142,9 +142,16 @@ Definition chain_agrees (C : slot -> option hash) (b : blockid) : bool :=
 
 Definition op_consistent (C : slot -> option hash) (H : hist) (o : ft_op) : bool :=
   match o with
-  | TFast b => chain_has C b                       (* fast-finalized blocks are on the chain *)
-  | TNotar b =>                                    (* at most one notarized block per slot, the chain's if any *)
-    chain_agrees C b
+  | TFast b =>                                     (* fast-finalized blocks are on the chain ... *)
+    chain_has C b
+    (* ... and are the notarized block of their slot, if there is one (80 % + 60 % > 100 % + 20 %) *)
+    && forallb (fun o' => match o' with TNotar b' => negb (fst b =? fst b') || (snd b =? snd b') | _ => true end) H
+    && (negb (fst b =? 0) || (snd b =? 0))
+  | TNotar b =>
+    (* at most one notarized block per slot (60 % + 60 % > 100 % + 20 %); it need NOT be the chain's block
+       of its slot (the chain may continue from a notar-fallback certified block) unless the slot is
+       finalized directly: final mark + notarization mark *)
+    (negb (finb H (fst b)) || chain_has C b)
     && (negb (fst b =? 0) || (snd b =? 0))
     && forallb (fun o' => match o' with TNotar b' => negb (fst b =? fst b') || (snd b =? snd b') | _ => true end) H
   | TFinal s => negb (is_none (C s))               (* a finalized slot is on the chain *)
@@ -154,8 +161,9 @@ Definition op_consistent (C : slot -> option hash) (H : hist) (o : ft_op) : bool
     && (negb (chain_has C c)
         || (chain_has C p && forallb (fun t => is_none (C t)) (seqN (fst p + 1) (N.to_nat (fst c - fst p - 1)))))
   end.
+(* genesis (0,0) counts as notarized: the first conjunct is the TNotar clause for it *)
 Definition ft_consistent (C : slot -> option hash) (H : hist) : bool :=
-  chain_agrees C (0, 0) && forallb (op_consistent C H) H.
+  (negb (finb H 0) || chain_has C (0, 0)) && forallb (op_consistent C H) H.
 
 (* ---------- events of a run ---------- *)
 Definition ev_blocks (ev : fin_event) : list blockid :=
@@ -180,3 +188,129 @@ Definition ft_mark_notarized_norestore (t : ftracker) (b : blockid) : ftres :=
     | Some FFinalPendingNotar =>
       ft_handle_finalized_block (ft_set_status t1 (fst b) (FFinalized (snd b))) b fe_empty
     end.
+
+(* ---------- the tracker with the two assertions of the PINNED tree ([strict] = true), removed by
+   "fix: allow a notarized block other than the implicitly finalized one in a slot":
+   handle_implicitly_finalized demanded that a slot whose status is Notarized(h) is implicitly finalized
+   with that very h, and mark_notarized demanded the same of an ImplicitlyFinalized(h) slot.
+   [strict] = false is, definition by definition, the current model of Model/Pool.v
+   (Proofs/FinalityProofs.v: ft_run_gen_false).  The oracle never runs these. ---------- *)
+Fixpoint ft_handle_impl_gen (strict : bool) (fuel : nat) (t : ftracker) (source : slot) (b : blockid) (ev : fin_event) : ftres :=
+  match fuel with
+  | O => None
+  | S f =>
+    if negb (fst b <? source) then None
+    else if fst b <? ft_first t then Some (t, ev)
+    else
+      match ft_skip_between t ev (seqN (fst b + 1) (N.to_nat (source - fst b - 1))) with
+      | None => None
+      | Some (t1, ev1, true) => Some (t1, ev1)
+      | Some (t1, ev1, false) =>
+        let old := alookup (fst b) (ft_status t1) in
+        let t2 := ft_set_status t1 (fst b) (FImplFinalized (snd b)) in
+        let continue_ (t3 : ftracker) :=
+          let ev2 := mkFE (fe_final ev1) (fe_impl_final ev1 ++ [b]) (fe_impl_skipped ev1) in
+          match blookup b (ft_parents t3) with
+          | Some p => ft_handle_impl_gen strict f t3 (fst b) p ev2
+          | None => Some (t3, ev2)
+          end in
+        match old with
+        | Some (FFinalized h) => if h =? snd b then Some (ft_set_status t2 (fst b) (FFinalized h), ev1) else None
+        | Some (FImplFinalized h) => if h =? snd b then Some (ft_set_status t2 (fst b) (FImplFinalized h), ev1) else None
+        | Some (FNotarized h) => if strict && negb (h =? snd b) then None else continue_ t2
+        | Some FFinalPendingNotar => continue_ t2
+        | Some FImplSkipped => None
+        | None => continue_ t2
+        end
+      end
+  end.
+Definition ft_handle_finalized_block_gen (strict : bool) (t : ftracker) (b : blockid) (ev : fin_event) : ftres :=
+  let ev1 := mkFE (Some b) (fe_impl_final ev) (fe_impl_skipped ev) in
+  let t1 := mkFT (ft_status t) (ft_parents t) (N.max (fst b) (ft_highest t)) (ft_first t) in
+  match blookup b (ft_parents t1) with
+  | Some p => match ft_handle_impl_gen strict (ft_fuel t1) t1 (fst b) p ev1 with
+              | Some (t2, ev2) => Some (ft_prune t2, ev2)
+              | None => None
+              end
+  | None => Some (ft_prune t1, ev1)
+  end.
+Definition ft_add_parent_gen (strict : bool) (t : ftracker) (b p : blockid) : ftres :=
+  if negb (fst p <? fst b) then None
+  else if fst b <? ft_first t then Some (t, fe_empty)
+  else match blookup b (ft_parents t) with
+       | Some p' => if bid_eqb p p' then Some (t, fe_empty) else None
+       | None =>
+         let t1 := mkFT (ft_status t) (binsert b p (ft_parents t)) (ft_highest t) (ft_first t) in
+         match alookup (fst b) (ft_status t1) with
+         | Some (FFinalized h) | Some (FImplFinalized h) =>
+           if h =? snd b then
+             match ft_handle_impl_gen strict (ft_fuel t1) t1 (fst b) p fe_empty with
+             | Some (t2, ev) => Some (ft_prune t2, ev)
+             | None => None
+             end
+           else Some (t1, fe_empty)
+         | _ => Some (t1, fe_empty)
+         end
+       end.
+Definition ft_mark_fast_finalized_gen (strict : bool) (t : ftracker) (b : blockid) : ftres :=
+  if fst b <? ft_first t then Some (t, fe_empty)
+  else
+    let old := alookup (fst b) (ft_status t) in
+    let t1 := ft_set_status t (fst b) (FFinalized (snd b)) in
+    match old with
+    | Some (FFinalized h) | Some (FImplFinalized h) => if h =? snd b then Some (t1, fe_empty) else None
+    | Some (FNotarized h) => if h =? snd b then ft_handle_finalized_block_gen strict t1 b fe_empty else None
+    | Some FFinalPendingNotar | None => ft_handle_finalized_block_gen strict t1 b fe_empty
+    | Some FImplSkipped => None
+    end.
+Definition ft_mark_notarized_gen (strict : bool) (t : ftracker) (b : blockid) : ftres :=
+  if fst b <? ft_first t then Some (t, fe_empty)
+  else
+    let old := alookup (fst b) (ft_status t) in
+    let t1 := ft_set_status t (fst b) (FNotarized (snd b)) in
+    match old with
+    | None => Some (t1, fe_empty)
+    | Some (FNotarized h) => if h =? snd b then Some (t1, fe_empty) else None
+    | Some (FFinalized h) => if h =? snd b then Some (ft_set_status t1 (fst b) (FFinalized h), fe_empty) else None
+    | Some (FImplFinalized h) =>
+      if strict && negb (h =? snd b) then None else Some (ft_set_status t1 (fst b) (FImplFinalized h), fe_empty)
+    | Some FImplSkipped => Some (ft_set_status t1 (fst b) FImplSkipped, fe_empty)
+    | Some FFinalPendingNotar =>
+      ft_handle_finalized_block_gen strict (ft_set_status t1 (fst b) (FFinalized (snd b))) b fe_empty
+    end.
+Definition ft_mark_finalized_gen (strict : bool) (t : ftracker) (s : slot) : ftres :=
+  if s <? ft_first t then Some (t, fe_empty)
+  else
+    let old := alookup s (ft_status t) in
+    let t1 := ft_set_status t s FFinalPendingNotar in
+    match old with
+    | None => Some (t1, fe_empty)
+    | Some FFinalPendingNotar => Some (t1, fe_empty)
+    | Some (FFinalized h) => Some (ft_set_status t1 s (FFinalized h), fe_empty)
+    | Some (FImplFinalized h) => Some (ft_set_status t1 s (FImplFinalized h), fe_empty)
+    | Some (FNotarized h) => ft_handle_finalized_block_gen strict (ft_set_status t1 s (FFinalized h)) (s, h) fe_empty
+    | Some FImplSkipped => None
+    end.
+Definition ft_step_gen (strict : bool) (t : ftracker) (o : ft_op) : ftres :=
+  match o with
+  | TParent b p => ft_add_parent_gen strict t b p
+  | TNotar b => ft_mark_notarized_gen strict t b
+  | TFast b => ft_mark_fast_finalized_gen strict t b
+  | TFinal s => ft_mark_finalized_gen strict t s
+  end.
+Fixpoint ft_run_gen (strict : bool) (t : ftracker) (ops : list ft_op) : option (ftracker * list fin_event) :=
+  match ops with
+  | [] => Some (t, [])
+  | o :: rest =>
+    match ft_step_gen strict t o with
+    | None => None
+    | Some (t1, ev) =>
+      match ft_run_gen strict t1 rest with
+      | None => None
+      | Some (t2, evs) => Some (t2, ev :: evs)
+      end
+    end
+  end.
+Definition ft_handle_impl_pinned := ft_handle_impl_gen true.
+Definition ft_mark_notarized_pinned := ft_mark_notarized_gen true.
+Definition ft_run_pinned := ft_run_gen true.
